@@ -190,7 +190,7 @@ def labels(c):
 
 # ------------------------------------------------------------------------------------------- indexing / iteration
 IDX_KINDS = {2: ["pointcoll", "linecoll", "quadriccoll", "normquadriccoll", "dualquadriccoll", "circlecoll", "transformationcoll", "segmentcoll", "polygoncoll", "trianglecoll", "rectanglecoll", "pentagoncoll"],
-             3: ["pointcoll", "linecoll", "planecoll", "quadriccoll", "spherecoll", "transformationcoll", "segmentcoll", "polygoncoll", "trianglecoll", "rectanglecoll", "cuboidcoll"]}
+             3: ["pointcoll", "linecoll", "planecoll", "quadriccoll", "spherecoll", "transformationcoll", "segmentcoll", "polygoncoll", "trianglecoll", "rectanglecoll", "cuboidcoll", "covlinecoll"]}
 
 
 @st.composite
@@ -211,6 +211,13 @@ def build_elements(kind, d, vs, n):
         # constructor flag normalize_matrix=True: every element keeps its own (projectively unchanged) matrix
         objs = [Z.build("quadric", d, vs[i % len(vs)])[0] for i in range(n)]
         return objs, Quadric, lambda arr: QuadricCollection(arr, normalize_matrix=True)
+    if base == "covline":
+        # lines of 3-space in covariant form (the public covariant_tensor of a Line / LineCollection): an element of the covariant
+        # collection is the covariant form of the element
+        contra = [Z.build("line", 3, vs[i % len(vs)])[0] for i in range(n)]
+        objs = [o.covariant_tensor for o in contra]
+        carr = np.stack([o.array for o in contra])
+        return objs, Line, lambda arr: LineCollection(carr.reshape(arr.shape)).covariant_tensor
     if base == "circle":
         objs = [Z.build("circle", d, vs[i % len(vs)])[0] for i in range(n)]
         return objs, Quadric, QuadricCollection
@@ -644,7 +651,7 @@ LAWS = [
     Law("collections_from_vertex_arguments", lambda tier: pcv_case(tier), run_pcv, lambda c: any(c["single"]), lambda c: [c["cls"], f"d{c['d']}"] + (["single-point-first"] if c["single"][0] and not all(c["single"][: (2 if c["cls"] == "SegmentCollection" else None)]) else []),
         {"quick": 600, "thorough": 8000}, "PolygonCollection / SegmentCollection built from vertex arguments mixing single points and point collections in every position", shard=200, mandatory=("single-point-first",)),
     Law("indexing", lambda tier: idx_case(tier), run_idx, lambda c: True, lambda c: [f"{c['kind']}{c['d']}", c["how"], "2-axes" if len(c["shape"]) > 1 else "1-axis"],
-        {"quick": 1500, "thorough": 25000}, "coll[i], coll[i,j], iteration yield instances of the element class with attributes intact", shard=300),
+        {"quick": 1500, "thorough": 25000}, "coll[i], coll[i,j], iteration yield instances of the element class with attributes intact", shard=300, mandatory=("covlinecoll3",)),
 ]
 
 
